@@ -2,6 +2,7 @@ package c04
 
 import (
 	"fmt"
+	"regexp"
 	"strings"
 	"testing"
 
@@ -40,9 +41,10 @@ func (f Flags) String() string {
 }
 
 type Case struct {
-	Docs  []string `json:"docs"` // JSON maps
-	Flags Flags    `json:"flags"`
-	Form  string   `json:"form"` // op | assign | reduce
+	IntKeys bool     `json:"int_keys,omitempty"` // number-like keys are unquoted YAML integers, not strings
+	Docs    []string `json:"docs"`               // JSON maps
+	Flags   Flags    `json:"flags"`
+	Form    string   `json:"form"` // op | assign | reduce
 }
 
 var keys = []string{"a", "b", "c", "d"}
@@ -102,6 +104,7 @@ func genCase(t *rapid.T) Case {
 	keys = []string{"a", "b", "c", "d"}
 	if rapid.IntRange(0, 4).Draw(t, "hostile") == 0 {
 		keys = rapid.SliceOfNDistinct(rapid.SampledFrom(hostileKeys), 4, 4, func(s string) string { return s }).Draw(t, "hkeys")
+		c.IntKeys = rapid.Bool().Draw(t, "intkeys")
 	}
 	n := 2
 	if c.Form == "reduce" {
@@ -200,8 +203,19 @@ func mergeMap(a, b *model.Value, f Flags, depth int, st *stats) (*model.Value, e
 	return res, nil
 }
 
+// intKeys: the documents are read as YAML with the number-like keys unquoted, so that they are integers in a
+// non-canonical spelling (0x1F, 02134, 1_000, +5) instead of strings; JSON output prints them as the same strings
+var intKeys = false
+
+var numLikeKey = regexp.MustCompile(`"(0x1F|02134|1_000|\+5)":`)
+
 func one(expr, input string, evalAll bool) (*model.Value, hx.Outcome) {
-	o := hx.Run(expr, input, hx.Opts{In: "json", Out: "json", IndentSet: true, Indent: 0, EvalAll: evalAll})
+	in := "json"
+	if intKeys {
+		// (one JSON document per line becomes one YAML document each)
+		in, input = "yaml", strings.ReplaceAll(strings.TrimRight(numLikeKey.ReplaceAllString(input, "$1: "), "\n"), "\n", "\n---\n")+"\n"
+	}
+	o := hx.Run(expr, input, hx.Opts{In: in, Out: "json", IndentSet: true, Indent: 0, EvalAll: evalAll})
 	if !o.OK() {
 		return nil, o
 	}
@@ -214,6 +228,8 @@ func one(expr, input string, evalAll bool) (*model.Value, hx.Outcome) {
 }
 
 func check(c Case) hx.Verdict {
+	intKeys = c.IntKeys
+	defer func() { intKeys = false }()
 	var docs []*model.Value
 	for _, d := range c.Docs {
 		v, err := model.ParseJSON(d)
